@@ -79,6 +79,9 @@ def run_shard(shard):
         return tick[0] % stride == 0
 
     for rep in range(shard["reps"]):
+        # every loss object / batch shape is its own XLA executable; a long thorough run otherwise exhausts the process's
+        # memory-map budget (vm.max_map_count) inside LLVM ("Cannot allocate memory")
+        jax.clear_caches()
         r = np.random.default_rng([shard["seed"], 17, shard["shard"], rep])
         key = jr.PRNGKey(int(r.integers(0, 2**31 - 1)))
         # ---------------------------------------------------------- maximum likelihood -----
